@@ -196,6 +196,40 @@ impl Shards {
         self.humans.push(human.replace('\n', " "));
         true
     }
+    /// Like `write`, but a case whose term is larger than 100 kB gets a shard of its own.
+    pub fn write_split(&self, outdir: &str, per_shard: usize) -> std::io::Result<usize> {
+        std::fs::create_dir_all(outdir)?;
+        let mut index = std::fs::File::create(format!("{}/index.txt", outdir))?;
+        let mut groups: Vec<Vec<usize>> = vec![];
+        let mut cur: Vec<usize> = vec![];
+        for i in 0..self.cases.len() {
+            if self.cases[i].len() > 100_000 {
+                groups.push(vec![i]);
+            } else {
+                cur.push(i);
+                if cur.len() == per_shard {
+                    groups.push(std::mem::take(&mut cur));
+                }
+            }
+        }
+        if !cur.is_empty() {
+            groups.push(cur);
+        }
+        for (k, g) in groups.iter().enumerate() {
+            let mut f = std::io::BufWriter::new(std::fs::File::create(format!("{}/shard_{}.v", outdir, k))?);
+            writeln!(f, "{}", self.header)?;
+            writeln!(f, "Open Scope N_scope.")?;
+            writeln!(f, "Definition cases : list {} := [", self.case_type)?;
+            for (j, &i) in g.iter().enumerate() {
+                writeln!(f, "(* {} *) {}{}", self.case_ids[i], self.cases[i], if j + 1 < g.len() { ";" } else { "" })?;
+                writeln!(index, "{} {} {}\t{}", k, j, self.case_ids[i], self.humans[i])?;
+            }
+            writeln!(f, "].")?;
+            writeln!(f, "Eval vm_compute in ({} cases).", self.report_fn)?;
+        }
+        Ok(groups.len())
+    }
+
     pub fn write(&self, outdir: &str, per_shard: usize) -> std::io::Result<usize> {
         std::fs::create_dir_all(outdir)?;
         let mut k = 0;
